@@ -172,7 +172,54 @@ async fn exec_tight(a: &Args) -> Args {
     }
 }
 
+/// The streams used through tokio's I/O traits (what `tokio::io::copy`, `AsyncReadExt::read_exact`,
+/// `BufReader` ... do): a[0] = [opener (0 client, 1 server), kind, seed, gap_ms, 0, 2].  The writer sends
+/// two halves `gap_ms` apart with `AsyncWriteExt::write_all`; the reader takes the whole payload with ONE
+/// `AsyncReadExt::read_exact` (it spans several deliveries), then reads to the end.
+async fn exec_tokio_io(a: &Args) -> Args {
+    use tokio::io::{AsyncReadExt, AsyncWriteExt};
+    let (opener, kind, seed, gap) = (a[0][0], a[0][1], a[0][2], a[0][3]);
+    let (server, addr) = wt_server(None);
+    let client = wt_client();
+    let url = format!("https://127.0.0.1:{}/tokio-io", addr.port());
+    let (sc, cc) = tokio::join!(wt_accept(&server), tokio::time::timeout(T_CALL, client.connect(&url)));
+    let (sconn, cconn) = match (sc, cc) {
+        (Ok(s), Ok(Ok(c))) => (s, c),
+        _ => return vec![vec![2]],
+    };
+    let (oc, ac) = if opener == 0 { (cconn.clone(), sconn.clone()) } else { (sconn.clone(), cconn.clone()) };
+    let data = payload(seed, 7, 6000);
+    let d2 = data.clone();
+    let writer = tokio::spawn(async move {
+        let mut s = if kind == 0 {
+            match oc.open_uni().await { Ok(o) => match o.await { Ok(s) => s, Err(_) => return false }, Err(_) => return false }
+        } else {
+            match oc.open_bi().await { Ok(o) => match o.await { Ok((s, _r)) => { std::mem::forget(_r); s } Err(_) => return false }, Err(_) => return false }
+        };
+        if AsyncWriteExt::write_all(&mut s, &d2[..3000]).await.is_err() { return false; }
+        tokio::time::sleep(Duration::from_millis(gap)).await;
+        if AsyncWriteExt::write_all(&mut s, &d2[3000..]).await.is_err() { return false; }
+        tokio::time::timeout(Duration::from_secs(5), s.finish()).await.map(|r| r.is_ok()).unwrap_or(false)
+    });
+    let big = Duration::from_millis(6000);
+    let mut r = if kind == 0 {
+        match tokio::time::timeout(big, ac.accept_uni()).await { Ok(Ok(r)) => r, _ => return vec![vec![1, 9]] }
+    } else {
+        match tokio::time::timeout(big, ac.accept_bi()).await { Ok(Ok((_s, r))) => { std::mem::forget(_s); r } _ => return vec![vec![1, 9]] }
+    };
+    let mut buf = vec![0u8; 6000];
+    let exact = matches!(tokio::time::timeout(big, AsyncReadExt::read_exact(&mut r, &mut buf)).await, Ok(Ok(_)));
+    let mut rest = vec![];
+    let tail_ok = matches!(tokio::time::timeout(big, AsyncReadExt::read_to_end(&mut r, &mut rest)).await, Ok(Ok(_)));
+    let w = writer.await.unwrap_or(false);
+    server.close(vi(0), b"");
+    vec![vec![1, exact as u64, (buf == data) as u64, rest.len() as u64, tail_ok as u64, w as u64]]
+}
+
 async fn exec_inner(a: &Args) -> Args {
+    if a[0].get(5).copied().unwrap_or(0) == 2 {
+        return exec_tokio_io(a).await;
+    }
     if a[0].get(5).copied().unwrap_or(0) == 1 {
         return exec_tight(a).await;
     }
@@ -297,6 +344,12 @@ pub fn oracle(a: &Args, out: &Args) -> Option<(&'static str, String)> {
     if out[0][0] != 1 {
         return None;
     }
+    if a[0].get(5).copied().unwrap_or(0) == 2 {
+        if out[0] != vec![1, 1, 1, 0, 1, 1] {
+            return Some(("C01", format!("6000 bytes written in two halves {} ms apart and read through tokio's AsyncRead with one read_exact: completed={} equal={} trailing bytes={} end-of-stream seen={} writer ok={}", a[0][3], out[0].get(1).copied().unwrap_or(9), out[0].get(2).copied().unwrap_or(9), out[0].get(3).copied().unwrap_or(9), out[0].get(4).copied().unwrap_or(9), out[0].get(5).copied().unwrap_or(9))));
+        }
+        return None;
+    }
     if a[0].get(5).copied().unwrap_or(0) == 1 {
         if out[1] != vec![1, 1000, 0] {
             return Some(("C01+C08", format!("a {} stream opened with {} bytes of connection credit left: the peer application read equal={} length={} end={} of the 1000 bytes written", if a[0][1] == 0 { "unidirectional" } else { "bidirectional" }, a[0][3], out[1][0], out[1][1], out[1][2])));
@@ -363,6 +416,12 @@ pub fn generate(rng: &mut Rng, thorough: bool) -> Vec<Case> {
                 cs.push(Case::new(671, vec![vec![opener, kind, rng.next() % 1_000_000, code, ct], sizes, b2a(&reason), if j == 0 { dg.clone() } else { vec![] }], "pair"));
                 k += 1;
             }
+        }
+    }
+    // the streams through tokio's I/O traits, all four roles
+    for opener in 0..2u64 {
+        for kind in 0..2u64 {
+            cs.push(Case::new(671, vec![vec![opener, kind, rng.next() % 1_000_000, 300, 0, 2], vec![], vec![], vec![]], "tokio-io-read-exact"));
         }
     }
     // streams opened with less connection credit left than their preamble needs
